@@ -123,12 +123,18 @@ def batch_size(r):
     return r.choice([1, 2, 2, 3, 4, 5, r.randint(1, 5), 16, 17, 33])
 
 
-def gen_ld(g, tier, idx):
+CHUNK_BATCHES = [255, 256, 257, 512, 64, 128, 1024, 1023, 0, 129]      # class p: multiples of 64 / 128 / 256 and +-1; the empty batch
+
+
+def gen_ld(g, tier, idx, b_force=None):
     r = g.r
     big = 6 if tier == "quick" else 8
     style = r.choice(["dyadic", "full", "full", "illcond", "illcond", "scalar", "bigmag", "tinydet", "hugedet"])
     d = 1 if style == "scalar" else (idx % big + 1 if idx < 2 * big else r.randint(1, big))
     b = batch_size(r)
+    if b_force is not None:
+        b = b_force
+        d = r.randint(1, 4)
     if style == "dyadic":
         S = g.spd_dyadic(d)
     elif style == "illcond":
@@ -144,18 +150,20 @@ def gen_ld(g, tier, idx):
         s = math.sqrt(max(S[i][i] for i in range(d)))
         x = [[m[i] + (x[i][c] - m[i]) * s for c in range(b)] for i in range(d)]
     toks = ["ld", str(d), str(b)] + vlib.fmt_mat_cm(x) + [hexd(v) for v in m] + vlib.fmt_mat_cm(S)
-    return " ".join(toks), {"op": "ld", "style": style, "d": d, "b": b}
+    return " ".join(toks), {"op": "ld", "style": style, "d": d, "b": b, "cols": b_force is not None or r.random() < 0.25}
 
 
 def divisors(d):
     return [k for k in range(1, d + 1) if d % k == 0]
 
 
-def gen_uvr(g, tier, idx):
+def gen_uvr(g, tier, idx, b_force=None):
     r = g.r
     big = 6 if tier == "quick" else 8
+    if b_force is not None:
+        big = 4
     for _attempt in range(50):
-        style = r.choice(["dyadic", "full", "full", "VeqUt", "kwide", "dominantUV", "indefW", "illR", "isoR", "scaled", "samediag", "samediag", "lastdiffers", "sametrace", "indefR", "indefR"])
+        style = r.choice(["dyadic", "full", "full", "VeqUt", "kwide", "dominantUV", "indefW", "illR", "isoR", "scaled", "samediag", "samediag", "lastdiffers", "sametrace", "indefR", "indefR", "nearblocks"])
         # every (dimension, block size dividing it, encoding) triple first, then random ones
         triples = [(dd, v, e) for dd in range(1, big + 1) for v in divisors(dd) for e in (0, 1)]
         if idx < len(triples):
@@ -166,7 +174,7 @@ def gen_uvr(g, tier, idx):
             enc = r.randint(0, 1)
             proper = [v for v in divs if v < d]
             bs = r.choice(proper) if (proper and r.random() < 0.7) else r.choice(divs + [1, d])
-        if style in ("samediag", "lastdiffers", "sametrace") and idx >= len(triples):
+        if style in ("samediag", "lastdiffers", "sametrace", "nearblocks") and idx >= len(triples):
             # these need a row of >= 2 blocks (of size >= 2 for the first and the last)
             d = r.choice([4, 6, 6] + ([8] if big >= 8 else []))
             bs = r.choice([v for v in divisors(d) if 2 <= v < d]) if style != "lastdiffers" else r.choice([v for v in divisors(d) if v < d])
@@ -175,7 +183,9 @@ def gen_uvr(g, tier, idx):
         k = r.randint(d + 1, d + 3) if style == "kwide" else r.randint(1, max(1, d + 1))
         if style == "indefR":
             k = d + r.randint(0, 1)
-        b = batch_size(r)
+        b = batch_size(r) if b_force is None else b_force
+        if b_force is not None:
+            k = min(k, 4)
         unit = 10 ** r.uniform(-5, 5) if style == "scaled" else 1.0      # S scales by unit^2 (1e-10 .. 1e10), the points by unit
         nblk = 1 if enc == 0 else nb
         if style == "dyadic":
@@ -202,6 +212,16 @@ def gen_uvr(g, tier, idx):
                     blocks.append([[(sd[a] * sd[a]) if a == c else sd[a] * sd[c] * Cm[min(a, c)][max(a, c)] / (dg[a] * dg[c]) for c in range(bs)] for a in range(bs)])
             elif style == "lastdiffers" and nblk >= 2:
                 blocks = [[list(row) for row in blocks[0]] for _ in range(nblk - 1)] + [blocks[-1]]      # all blocks equal except the last
+            elif style == "nearblocks" and nblk >= 2:
+                # consecutive blocks equal up to a relative 1e-6 .. 1e-10 in ONE entry of the diagonal (the smallest one):
+                # "isApprox-equal" blocks are different blocks
+                b0 = blocks[0]
+                blocks = []
+                for i in range(nblk):
+                    blk = [list(row) for row in b0]
+                    a = min(range(bs), key=lambda t: b0[t][t])
+                    blk[a][a] = b0[a][a] * (1.0 + i * r.choice([1e-6, 1e-7, 1e-8]))
+                    blocks.append(blk)
             elif style == "sametrace" and bs >= 2 and nblk >= 2:
                 t0 = sum(blocks[0][a][a] for a in range(bs))                                                # same trace, different blocks
                 blocks = [blocks[0]] + [[[v * t0 / sum(blk[a][a] for a in range(bs)) for v in row] for row in blk] for blk in blocks[1:]]
@@ -259,7 +279,8 @@ def gen_uvr(g, tier, idx):
         Rtok = vlib.fmt_mat_cm(blocks[0]) if enc == 0 else [hexd(blocks[i][a][c]) for i in range(nb) for c in range(bs) for a in range(bs)]
         toks = ["uvr", str(nb), str(bs), str(k), str(b), str(enc)] + vlib.fmt_mat_cm(x) + [hexd(v) for v in m] \
             + vlib.fmt_mat_cm(U) + vlib.fmt_mat_cm(V) + Rtok
-        return " ".join(toks), {"op": "uvr", "style": style, "d": d, "nb": nb, "bs": bs, "k": k, "b": b, "enc": enc}
+        return " ".join(toks), {"op": "uvr", "style": style, "d": d, "nb": nb, "bs": bs, "k": k, "b": b, "enc": enc,
+                                "cols": b_force is not None or r.random() < 0.25}
     raise RuntimeError("uvr generator: no admissible case in 50 attempts")
 
 
@@ -310,6 +331,52 @@ def gen_lse(g, tier, idx):
         rr = r.choice([k for k in range(1, n + 1) if n % k == 0])
         meta["shape"] = [rr, n // rr]
     return " ".join(["lse", str(n)] + [hexd(v) for v in x]), meta
+
+
+def gen_lse_long(g, kind, n):
+    """class p / r4: long vectors (>= 20000 entries): a few entries at the maximum, the bulk 15 .. 40 below it
+    (individually ~1e-7 .. 1e-18 of the sum, collectively visible), ties at the maximum at chunk boundaries"""
+    r = g.r
+    top = r.choice([0.0, 9000.0, -9000.0, r.uniform(-1e3, 1e3)])
+    if kind == "band":
+        x = [top - r.uniform(15.0, 40.0) for _ in range(n)]
+        x[r.randrange(n)] = top
+    elif kind == "bandties":
+        x = [top - r.uniform(15.0, 40.0) for _ in range(n)]
+        for p_ in (0, n - 1, 255, 256, 4095, 4096, n // 2, r.randrange(n)):
+            x[p_] = top
+    elif kind == "band16":          # everything 16 .. 20 below one maximum
+        x = [top - r.uniform(16.0, 20.0) for _ in range(n)]
+        x[r.choice([0, n - 1, r.randrange(n)])] = top
+    elif kind == "allequal":
+        x = [top] * n
+    else:                           # "mixedlong": ordinary log-weights, some -inf, the bulk far below
+        x = [top - r.choice([r.uniform(0, 5), r.uniform(15, 40), r.uniform(100, 2000), math.inf]) for _ in range(n)]
+        x[r.randrange(n)] = top
+    c = r.choice([1.0, -3.5, 1000.0, r.uniform(-100, 100)])
+    meta = {"op": "lse", "style": "long-" + kind, "n": n, "shift": c}
+    rr = r.choice([k for k in (2, 4, 100, 128, 256) if n % k == 0] or [1])
+    meta["shape"] = [rr, n // rr]
+    return " ".join(["lse", str(n)] + [hexd(v) for v in x]), meta
+
+
+def gen_lse_ties(g):
+    """ties at the maximum at every position and every pair of positions, n = 2 .. 9, 16, 17 (enumerated on every run);
+    the other entries 0.5 .. 30 below"""
+    r = g.r
+    out = []
+    for n in list(range(2, 10)) + [16, 17]:
+        pos = [(p_,) for p_ in range(n)] + [(p_, q_) for p_ in range(n) for q_ in range(p_ + 1, n)]
+        if n >= 16:
+            pos = [(p_,) for p_ in range(n)] + [(p_, p_ + 1) for p_ in range(n - 1)] + [(0, n - 1), (0, 8), (7, 15), (0, 1, n - 1)]
+        for ps in pos:
+            top = r.choice([0.0, 3.25, -700.0, 5000.0, r.uniform(-50, 50)])
+            x = [top - r.choice([r.uniform(0.5, 3.0), r.uniform(15.0, 30.0)]) for _ in range(n)]
+            for p_ in ps:
+                x[p_] = top
+            out.append((" ".join(["lse", str(n)] + [hexd(v) for v in x]),
+                        {"op": "lse", "style": "ties%d" % len(ps), "n": n, "shift": r.choice([1.0, -3.5, 1000.0])}))
+    return out
 
 
 # ----------------------------------------------------------------------------- oracles
@@ -370,6 +437,36 @@ def check_ld_like(tag, d, b, Lc, Dc, Lstar, tolL, probs, stats, what):
             probs.append(("prop", tag + "-density-not-exp-of-log", "%s: column %d: density %.17g but exp(log-density) = %.17g" % (what, c, Dc[c], e)))
 
 
+def check_cols(tag, b, Lb, Db, hcols, dcols, tol, Lstar, probs, stats):
+    """the batch call against one call per column (implementation vs implementation: batch independence, theorems
+    logDensity_batch_map / uvr_batch_map), and the per-column model run against the per-column implementation run"""
+    if not hcols.startswith("ok"):
+        probs.append(("prop", "impl-crash", "one call per column failed on a valid input: %s" % hcols[:80]))
+        return
+    (Lc, Dc), _ = parse_vecs(hcols.split(), 1, 2)
+    if len(Lc) != b or len(Dc) != b:
+        probs.append(("prop", "batch-size", "one call per column of a batch of %d gave %d / %d values" % (b, len(Lc), len(Dc))))
+        return
+    stats["batch_vs_columns_compared"] = stats.get("batch_vs_columns_compared", 0) + b
+    mL = None
+    if dcols is not None and dcols.startswith("ok"):
+        dt = dcols.split()
+        mL = [unhex(v) for v in dt[1:1 + b]]
+    elif dcols is not None:
+        probs.append(("corr", "model-undefined", "per-column model run not defined on a valid input: %s" % dcols[:40]))
+    for c in range(b):
+        tt = 2 * tol[c] + 16 * EPS * abs(Lstar[c])
+        if tt > max(0.05, 1e-6 * abs(Lstar[c])):
+            continue
+        if not (abs(Lb[c] - Lc[c]) <= tt):
+            probs.append(("prop", tag + "-batch-not-map-of-columns", "column %d of a batch of %d: log-density %.17g in the batch, %.17g evaluated on its own (tol %.3g)" % (c, b, Lb[c], Lc[c], tt)))
+        big = max(abs(Db[c]), abs(Dc[c]))
+        if not (abs(Db[c] - Dc[c]) <= big * math.expm1(min(50.0, tt)) + TINY):
+            probs.append(("prop", tag + "-batch-not-map-of-columns-density", "column %d of a batch of %d: density %.17g in the batch, %.17g evaluated on its own" % (c, b, Db[c], Dc[c])))
+        if mL is not None and not (abs(Lc[c] - mL[c]) <= tol[c] + 8 * EPS * abs(Lstar[c])):
+            probs.append(("corr", tag + "-cols-mismatch", "column %d evaluated on its own: implementation %.17g model %.17g" % (c, Lc[c], mL[c])))
+
+
 def parse_vecs(tok, p, count):
     out = []
     for _ in range(count):
@@ -378,7 +475,7 @@ def parse_vecs(tok, p, count):
     return out, p
 
 
-def check_ld(line, meta, hout, dout, stats):
+def check_ld(line, meta, hout, dout, stats, hcols=None, dcols=None):
     probs = []
     t = line.split()
     d, b = int(t[1]), int(t[2])
@@ -416,10 +513,12 @@ def check_ld(line, meta, hout, dout, stats):
             probs.append(("corr", "logdensity-mismatch", "column %d: implementation %.17g model %.17g" % (c, Lc[c], mL[c])))
         if not (abs(mL[c] - Lstar[c]) <= 8 * EPS * (abs(Lstar[c]) + d * LOG2PI + abs(ld) + abs(float(mq[c])))):
             probs.append(("corr", "model-final-vs-oracle", "column %d: model %.17g oracle %.17g" % (c, mL[c], Lstar[c])))
+    if hcols is not None:
+        check_cols("direct", b, Lc, Dc, hcols, dcols, tolL, Lstar, probs, stats)
     return probs
 
 
-def check_uvr(line, meta, hout, dout, stats):
+def check_uvr(line, meta, hout, dout, stats, hcols=None, dcols=None):
     probs = []
     t = line.split()
     nb, bs, k, b, enc = (int(v) for v in t[1:6])
@@ -519,6 +618,8 @@ def check_uvr(line, meta, hout, dout, stats):
         # correspondence: model vs implementation
         if not (abs(Lu[c] - mL[c]) <= tolU[c] + 8 * EPS * abs(Lstar[c])):
             probs.append(("corr", "uvr-logdensity-mismatch", "column %d: implementation %.17g model %.17g" % (c, Lu[c], mL[c])))
+    if hcols is not None:
+        check_cols("uvr", b, Lu, Du, hcols, dcols, tolU, Lstar, probs, stats)
     return probs
 
 
@@ -606,6 +707,43 @@ def guarded(fn, line, hout, *args):
         return [("prop", "unreadable-result", "results could not be evaluated (%s: %s); output: %s" % (type(e).__name__, str(e)[:80], hout[:120]))]
 
 
+# Candidate finding (reported to the coordinator; /repo not edited): the routines take std::log of a determinant formed as a
+# double.  For larger dimensions the determinant leaves the double range although S is perfectly conditioned (d = 170,
+# S = 0.01 I: det = 1e-340 -> 0), and the log-density comes out +inf / -inf instead of a finite number (the density inf / 0 where
+# the exact value is representable).  The real-arithmetic model has no such range, so this is a floating-point defect outside the
+# model: recorded under coverage.candidate_findings, turned into a violation with the stable key below once decided.
+DET_RANGE_IS_VIOLATION = False
+DET_RANGE_KEY = "density-determinant-out-of-double-range"
+
+
+def range_probe(binary, quick):
+    """diagonal covariances whose determinant under-/overflows a double; oracle in closed form"""
+    found, nrun = [], 0
+    for d, var in ((170, 0.01), (200, 100.0)) if quick else ((100, 0.01), (170, 0.01), (400, 0.01), (200, 100.0), (120, 1e-3)):
+        S = [[var if i == j else 0.0 for j in range(d)] for i in range(d)]
+        x = [[0.5 * math.sqrt(var) * ((i % 3) - 1)] for i in range(d)]
+        m = [0.0] * d
+        quad = sum((x[i][0] ** 2) / var for i in range(d))
+        exact = -0.5 * (d * LOG2PI + d * math.log(var) + quad)
+        lines = [" ".join(["ld", str(d), "1"] + vlib.fmt_mat_cm(x) + [hexd(v) for v in m] + vlib.fmt_mat_cm(S)),
+                 " ".join(["uvr", str(d), "1", "1", "1", "0"] + vlib.fmt_mat_cm(x) + [hexd(v) for v in m]
+                          + [hexd(0.0)] * (2 * d) + [hexd(var)])]
+        outs, _ = vlib.run_harness(binary, lines)
+        for which, o in zip(("multivariate_gaussian_log_density", "multivariate_gaussian_log_density_UVR (U = V = 0, shared 1x1 block)"), outs):
+            nrun += 1
+            t = o.split()
+            try:
+                val = unhex(t[2]) if t[0] == "ok" else float("nan")
+            except Exception:
+                val = float("nan")
+            if not (math.isfinite(val) and abs(val - exact) <= 1e-9 * abs(exact)):
+                found.append({"key": DET_RANGE_KEY, "routine": which, "input": "d = %d, S = %g * I (cond 1), mean 0, one point with entries 0.5 sigma * {-1, 0, 1}" % (d, var),
+                              "observed_log_density": repr(val), "expected_log_density": exact,
+                              "expected_density": (math.exp(exact) if exact < 709 else "above the double range"),
+                              "line": lines[0][:200] + " ..."})
+    return found, nrun
+
+
 def corpus_cases():
     out = []
     p = vlib.VERIF / "corpus" / "C15" / "cases.txt"
@@ -629,6 +767,23 @@ def run(ctx):
         cases.append(gen_uvr(g2, ctx.tier, i))
     for i in range(ctx.n(400, 6000)):
         cases.append(gen_lse(g3, ctx.tier, i))
+    # class p (round 4): batches at chunk boundaries for every density routine, on every run; the first one early
+    # (a large element count first: every later shape is "not growing" for a grow-only scratch buffer, class v)
+    g4 = ctx.gen("chunks")
+    chunk = []
+    for j, bb in enumerate(CHUNK_BATCHES if ctx.quick() else CHUNK_BATCHES + [2048, 384, 511, 513, 768]):
+        chunk.append(gen_ld(g4, ctx.tier, 10 ** 6, b_force=bb))
+        chunk.append(gen_uvr(g4, ctx.tier, 10 ** 6, b_force=bb))
+    ncorp = len([c for c in cases if c[1].get("style") == "corpus"])
+    cases[ncorp:ncorp] = chunk[:2]
+    cases += chunk[2:]
+    # long log_sum_exp vectors and ties at the maximum at every position
+    cases += gen_lse_ties(g4)
+    longs = [("band", 20000), ("bandties", 20001), ("band16", 32768), ("allequal", 20000), ("mixedlong", 24576)]
+    if not ctx.quick():
+        longs += [("band", 65536), ("bandties", 40000), ("band16", 20480), ("band16", 100003), ("mixedlong", 50000), ("allequal", 65537)]
+    for kind, nn in longs:
+        cases.append(gen_lse_long(g4, kind, nn))
     if ctx.replay:
         line = json.load(open(ctx.replay))["replay"]["input_line"]
         cases = [(line, {"op": line.split()[0], "style": "replay", "shift": 1.0})]
@@ -638,8 +793,13 @@ def run(ctx):
     for line, meta in cases:
         op = meta["op"]
         if op in ("ld", "uvr"):
-            index.append({"h": len(hlines), "d": len(dlines)})
+            ent = {"h": len(hlines), "d": len(dlines)}
             hlines.append(line); dlines.append(line)
+            if meta.get("cols") or meta.get("style") in ("replay", "corpus"):
+                ent["hcols"] = len(hlines); ent["dcols"] = len(dlines)
+                cl = op + "cols " + line.split(" ", 1)[1]
+                hlines.append(cl); dlines.append(cl)
+            index.append(ent)
         else:
             t = line.split()
             n = int(t[1])
@@ -658,6 +818,7 @@ def run(ctx):
     hout, logs, retried = run_harness_confirmed(binary, hlines)
     dout = run_driver_parallel(dlines)
 
+    range_found, range_run = ([], 0) if ctx.replay else range_probe(binary, ctx.quick())
     stats, hist, branch = {}, {}, {}
     distinct, nontrivial = set(), set()
     corr_bad, prop_bad = [], []
@@ -666,13 +827,19 @@ def run(ctx):
         hist["%s:%s" % (op, meta.get("style"))] = hist.get("%s:%s" % (op, meta.get("style")), 0) + 1
         distinct.add(line)
         if op == "ld":
-            probs = guarded(check_ld, line, hout[ent["h"]], line, meta, hout[ent["h"]], dout[ent["d"]], stats)
+            probs = guarded(check_ld, line, hout[ent["h"]], line, meta, hout[ent["h"]], dout[ent["d"]], stats,
+                            hout[ent["hcols"]] if "hcols" in ent else None, dout[ent["dcols"]] if "dcols" in ent else None)
             t = line.split()
             if int(t[1]) > 1:
                 nontrivial.add(line)
             branch["direct"] = branch.get("direct", 0) + 1
+            if int(t[2]) in CHUNK_BATCHES or int(t[2]) >= 255:
+                branch["direct:batch at a chunk boundary (%s columns)" % t[2]] = branch.get("direct:batch at a chunk boundary (%s columns)" % t[2], 0) + 1
+            if "hcols" in ent:
+                branch["direct:also one call per column"] = branch.get("direct:also one call per column", 0) + 1
         elif op == "uvr":
-            probs = guarded(check_uvr, line, hout[ent["h"]], line, meta, hout[ent["h"]], dout[ent["d"]], stats)
+            probs = guarded(check_uvr, line, hout[ent["h"]], line, meta, hout[ent["h"]], dout[ent["d"]], stats,
+                            hout[ent["hcols"]] if "hcols" in ent else None, dout[ent["dcols"]] if "dcols" in ent else None)
             t = line.split()
             nb, bs, enc = int(t[1]), int(t[2]), int(t[5])
             if nb * bs > 1:
@@ -680,6 +847,10 @@ def run(ctx):
             key = "uvr:R.cols()==block_size" if (enc == 0 or nb == 1) else "uvr:R.cols()!=block_size"
             branch[key] = branch.get(key, 0) + 1
             branch["uvr:enc=%s" % ("shared" if enc == 0 else "perBlock")] = branch.get("uvr:enc=%s" % ("shared" if enc == 0 else "perBlock"), 0) + 1
+            if int(t[4]) in CHUNK_BATCHES or int(t[4]) >= 255:
+                branch["uvr:batch at a chunk boundary (%s columns)" % t[4]] = branch.get("uvr:batch at a chunk boundary (%s columns)" % t[4], 0) + 1
+            if "hcols" in ent:
+                branch["uvr:also one call per column"] = branch.get("uvr:also one call per column", 0) + 1
             if bs == 1:
                 branch["uvr:block=1"] = branch.get("uvr:block=1", 0) + 1
             if nb == 1:
@@ -701,6 +872,13 @@ def run(ctx):
                     branch["lse:first entry -inf"] = branch.get("lse:first entry -inf", 0) + 1
             xs = [unhex(v) for v in t[2:]]
             fin = [v for v in xs if v != -math.inf]
+            if len(xs) >= 20000:
+                branch["lse:n>=20000"] = branch.get("lse:n>=20000", 0) + 1
+            if sum(1 for v in fin if v == max(fin)) >= 2 if len(xs) < 1000 else False:
+                branch["lse:ties at the maximum"] = branch.get("lse:ties at the maximum", 0) + 1
+            nband = sum(1 for v in fin if 15.0 <= max(fin) - v <= 40.0) if len(xs) >= 1000 else 0
+            if nband >= 1000:
+                branch["lse:>=1000 entries 15..40 below the maximum"] = branch.get("lse:>=1000 entries 15..40 below the maximum", 0) + 1
             if max(fin) - min(fin) > 1500:
                 branch["lse:spread>1500 (naive evaluation would under/overflow)"] = branch.get("lse:spread>1500 (naive evaluation would under/overflow)", 0) + 1
             if max(abs(v) for v in fin) > 709:
@@ -717,12 +895,19 @@ def run(ctx):
         key2, what, line, h = corr_bad[0]
         ctx.violation("correspondence:" + key2, "model and implementation disagree (%d cases), no property predicate failed: %s" % (len(corr_bad), what),
                       {"harness": "h_density", "correspondence": "BFL/Model/Density.lean vs utils.h", "input_line": line, "observed": h[:2000]}, no_input=True)
+    if range_found and DET_RANGE_IS_VIOLATION:
+        f = range_found[0]
+        ctx.violation(DET_RANGE_KEY, "utils: %s: %s: log-density %s, definition gives %.17g" % (f["routine"], f["input"], f["observed_log_density"], f["expected_log_density"]),
+                      {"harness": "h_density", "input_line": f["line"], "observed": f["observed_log_density"]})
     ctx.coverage.update({
+        "candidate_findings": range_found, "determinant_range_probes": range_run,
         "evaluations": len(cases), "distinct_nontrivial": len(nontrivial & distinct),
         "rule": "direct densities: d 1..%d, batch 1..5, SPD S with prescribed spectrum (cond <= 1e6, determinants 1e-40..1e40); factorised: d = nb*bs with every "
                 "divisor bs (incl. 1 and d), k 1..d+3, V = W U^T with W identity / SPD / indefinite (S = UV + R positive definite with cond_inf <= 1e6 by rejection), "
                 "shared and per-block R with all blocks distinct; log_sum_exp: n 1..%d, entries in [-1e4, 1e4] and -inf (never all), spreads 1e4 vs -1e4, "
-                "x and x + c, matrix-shaped arguments; non-trivial = dimension / length > 1; distinct = distinct input lines" % ((6, 8) if ctx.quick() else (8, 40)),
+                "x and x + c, matrix-shaped arguments; round 4: batches of 0, 64, 128, 129, 255, 256, 257, 512, 1023, 1024 columns for both density "
+                "routines (each also evaluated by one call per column), ties at the maximum at every position / pair of positions (n 2..9, 16, 17), "
+                "vectors of 20000..32768 entries (thorough: 100003) with the bulk 15..40 below the maximum; non-trivial = dimension / length > 1; distinct = distinct input lines" % ((6, 8) if ctx.quick() else (8, 40)),
         "samples": [cases[0][0][:300], next((c[0][:300] for c in cases if c[1]["op"] == "uvr"), ""), cases[-1][0][:300]],
         "style_histogram": hist, "branch_histogram": branch, "numeric": stats,
         "traces_validated_against_impl": len(cases),
